@@ -16,4 +16,4 @@ for d in sorted(os.listdir(root)):
         s = s[:240].rsplit(" ", 1)[0] + " ..."
     s = s.replace("|", "/")
     note = " ".join(m.get("history", "").split()).replace("|", "/")
-    print("| `%s` | %s | %s | %s | %s |" % (d, m.get("property", "?"), s, ", ".join(m.get("caught_by", [])) or "none", note))
+    print("| `%s` | %s | %s | %s | %s |" % (d, m.get("property", "?"), s, ", ".join(c + ("" if "with_failing_input" not in m or c in m["with_failing_input"] else " (correspondence only)") for c in m.get("caught_by", [])) or "none", note))
